@@ -501,6 +501,31 @@ func (fc *FnCtx) checkPost(st *State, at ast.Node) {
 	defer func() { fc.scope, fc.oldEnv, fc.oldFresh = saved, savedOld, savedOF }()
 	fc.oldEnv, fc.oldFresh = map[string]Val{}, map[string]bool{}
 	fc.applyUses(st, "use-exit", -1, fc.body.Rbrace-1, at)
+	// in a postcondition a value parameter names the ARGUMENT (its value on entry), as it does
+	// for the caller: a body that re-assigns the parameter must not change what the clause says
+	if fc.sig != nil && fc.sig.Params() != nil {
+		entry := &State{env: map[string]Val{}, assume: st.assume, guard: st.guard, fresh: map[string]bool{}}
+		for i := 0; i < fc.sig.Params().Len(); i++ {
+			p := fc.sig.Params().At(i)
+			if p.Name() == "" || p.Name() == "_" {
+				continue
+			}
+			switch sortOf(p.Type()) {
+			case SInt, SBool, SStr, SSL, SIL:
+				k := objKey(p)
+				if cur, ok := st.env[k]; ok {
+					ev := fc.readKey(entry, k, p.Type())
+					if ev.T != cur.T {
+						if st2 := st.clone(); st2 != nil {
+							st = st2
+						}
+						st.env[k] = ev
+					}
+				}
+			}
+		}
+		st.assume = entry.assume
+	}
 	sc := fc.fnScope(st, fc.body.Rbrace-1)
 	// `ensures` are exported to callers; `checks` are postconditions that may mention locals
 	// (checked here, never assumed at call sites)
